@@ -543,6 +543,17 @@ class World:
                 ret = n.detach()
             elif op["what"] == "detach_self":
                 ret = n.detach_self()
+            elif op["what"] == "replace":
+                # a second functional update of the same superseded object (n.replace(a=..); n.replace(b=..)): only a
+                # detached copy may come back, the attached world is none of its business
+                props = L.PROP_FIELDS[cname(n)]
+                if not props:
+                    raise SkipOp("no property")
+                ret = n.replace(**{props[0][0]: op.get("value", "st")})
+                if not ret.detached:
+                    raise self.viol("C18.6 replace-effect", "C18.6:stale-replace-attached", "replace() on an already superseded (detached) node returned an attached node")
+                del ret
+                ret = True
             else:
                 ret = n.duplicate(as_detached_clone=True)
                 if any(not x.detached for x in walk(ret)):
@@ -917,9 +928,58 @@ class Gen:
                 return {"h": h, "path": path}
         return None
 
+    def start_stale_cid_script(self) -> bool:
+        """r.detach(only_self) -> a change below r (which cannot reach the detached r: its content id is now out of
+        date, legitimately) -> a REJECTED operation that would have attached r, the rejection arising at a sibling
+        that is looked at after r's subtree."""
+        w = self.w
+        r = self.r("scscript")
+        roots = [h for h, o in w.handles.items() if not w.is_retired(o) and o.is_attached_root and self.clean(o) and 2 <= len(walk(o)) <= 10]
+        r.shuffle(roots)
+        for h in roots:
+            root = w.handles[h]
+            paths = []
+            for f, i, c in children_of(root):
+                if L.PROP_FIELDS[cname(c)] and not c.detached:
+                    paths.append(([[f, i]], c))
+            if not paths:
+                continue
+            path, c = r.choice(paths)
+            prop = L.PROP_FIELDS[cname(c)][0][0]
+            newv = r.choice([v for v in STR + ["zz"] if v != getattr(c, prop)])
+            out = self.out()
+
+            def reject() -> dict[str, Any] | None:
+                if h not in w.handles or not w.handles[h].detached:
+                    return None
+                bad = self.pick_ref(lambda o: (not o.detached) and o.parent is not None and not any(x is o for x in walk(w.handles[h])), root_bias=0.3)
+                if bad is None:
+                    return None
+                kids = [{"ref": {"h": h, "path": []}}] + self.fresh_children(r.choice([0, 1])) + [{"ref": bad}]
+                return {"op": "reject", "act": "new", "spec": {"c": "LInner", "p": {"tag": "sc"}, "ch": {r.choice(["items", "lst"]): kids}, "o": "no"}, "bad": "ctor_stale_detached_child_then_collision"}
+
+            self.queue = [
+                lambda: {"op": "detach", "n": {"h": h, "path": []}, "only_self": True} if h in w.handles else None,
+                lambda: {"op": "replace", "n": {"h": h, "path": path}, "ch": {prop: {"v": newv}}, "out": out, "keep_stale": False} if h in w.handles else None,
+                reject,
+            ]
+            w.stats.probes["stale_content_id_script_started"] += 1
+            return True
+        return False
+
     def next_op(self) -> dict[str, Any]:
         w = self.w
         r = self.r("sched")
+        if not getattr(self, "queue", None) and self.cfg["weights"].get("reject", 0) > 0 and w.handles and r.random() < 0.05:
+            self.start_stale_cid_script()
+        while getattr(self, "queue", None):
+            op = self.queue.pop(0)()
+            if op is None:
+                self.queue = []
+                break
+            op["step"] = w.step_no + 1
+            op["actor"] = "scripted"
+            return op
         if not w.handles:
             kind = "new"
         else:
@@ -1048,7 +1108,7 @@ class Gen:
         names = [h for h, o in self.w.handles.items() if self.w.is_retired(o)]
         if not names:
             return None
-        return {"op": "stale", "h": r.choice(names), "what": r.choice(["detach", "detach_self", "clone"])}
+        return {"op": "stale", "h": r.choice(names), "what": r.choice(["detach", "detach_self", "clone", "replace", "replace"]), "value": r.choice(STR)}
 
     def g_duplicate(self) -> dict[str, Any] | None:
         r = self.r("dup")
